@@ -115,10 +115,12 @@ def jEffects (j : Json) : Except String Effects := do
 /-- C07 "announced exactly once" + preempting bookkeeping, common to the three preemption kinds:
     every marked victim appears in exactly one release message, once, as PREEMPTED_BY_SCHEDULER; nothing else is released;
     nothing is un-marked; every queue's preemptingResource grew by exactly the marked victims of its subtree -/
-def effectClauses (w : World) (e : Effects) : List String :=
+def effectClauses (w : World) (e : Effects) (skipped : List String := []) : List String :=
   let all := e.rel.flatten
   let want := e.marked.map (· ++ ":PREEMPTED_BY_SCHEDULER")
-  (if sortStrs all == sortStrs want then [] else [s!"C07.A1-announced-once marked={e.marked} released={e.rel}"]) ++
+  -- (quota preemption: selected victims that were released after the filtering (`skipped`) are not marked and, since
+  --  fix b12c1e2, not announced either)
+  (if sortStrs all == sortStrs want then [] else [s!"C07.A1-announced-once marked={e.marked} released={e.rel} released-after-filtering={skipped}"]) ++
   (if e.unmarked.isEmpty then [] else [s!"C07.A2-unmarked {e.unmarked}"]) ++
   (match (List.range w.queues.length).find? (fun i =>
       let add := sumRes ((w.allocs.filter (fun a => e.marked.contains a.key && inSubtree w i a.q)).map (·.res))
@@ -478,7 +480,50 @@ def preemptStep (st : PreSt) (j : Json) : Except String (PreSt × String) := do
     let plan ← planJ.toList.mapM (fun p => do
       let a ← jArr p
       pure (← jStr a[0]!, ← jORes a[1]!))
-    invs := invs ++ effectClauses w e
+    -- quota preemption run step by step: the filtered, sorted candidates per leaf are known, the model computes the
+    -- selection, the marking (victims released after the filtering are skipped) and the preempting resources
+    let lateDone : List String := (jStrs (fldD j "lateReleased" (.arr #[]))).toOption.getD []
+    let mut skipped : List String := []
+    match (j.getObjVal? "cands").toOption with
+    | none => pure ()
+    | some cj =>
+      let cl ← jList (fun p => do
+        let a ← jArr p
+        pure (← jStr a[0]!, ← jStrs a[1]!)) cj
+      let sel : List String := cl.flatMap (fun (lpath, keys) =>
+        match plan.lookup lpath with
+        | some (some lp) => (quotaSelect lp (keys.filterMap (findAlloc w))).1.map (·.key)
+        | _ => [])
+      let allocs0 := releaseLate lateDone w.allocs
+      let after := quotaPreemptLate w lateDone sel
+      let mMarked := sortStrs (quotaMarked allocs0 sel)
+      skipped := sel.filter (fun k => isReleased allocs0 k)
+      let wAfter : World := { w with allocs := after }
+      let announced := sortStrs (e.rel.flatten.map (fun x => (x.splitOn ":").headD ""))
+      if !planPanic && diffs.isEmpty then
+        if mMarked != sortStrs e.marked then
+          diffs := diffs ++ [s!"quota.marked model={mMarked} impl={sortStrs e.marked} selected={sel} released-after-filtering={lateDone}"]
+        else if (jStrs (fldD j "preemptedAfter" .null)).toOption.map sortStrs != some (sortStrs (markedKeys after)) then
+          diffs := diffs ++ [s!"quota.marks-after model={sortStrs (markedKeys after)} impl={(jStrs (fldD j "preemptedAfter" .null)).toOption}"]
+        else if (jStrs (fldD j "releasedAfter" .null)).toOption.map sortStrs != some (sortStrs ((after.filter (·.released)).map (·.key))) then
+          diffs := diffs ++ [s!"quota.released-after model={sortStrs ((after.filter (·.released)).map (·.key))} impl={(jStrs (fldD j "releasedAfter" .null)).toOption}"]
+        else if announced != mMarked then
+          -- (since fix b12c1e2 only the victims that were marked are announced; before it the whole selection was)
+          diffs := diffs ++ [s!"quota.announced model={mMarked} impl={announced}"]
+        else match (List.range w.queues.length).find? (fun i =>
+            !resEq (prune (preemptingOf wAfter i)) (prune (e.preemptingAfter.getD i []))) with
+          | some i => diffs := diffs ++ [s!"quota.preempting-after[{pathOf w i}] model={showRes (preemptingOf wAfter i)} impl={showRes (e.preemptingAfter.getD i [])} marked={e.marked} released-after-filtering={lateDone}"]
+          | none => pure ()
+    invs := invs ++ effectClauses w e skipped
+    -- C08: what a queue books as preempting grows by exactly the victims marked in this operation (a victim that was
+    -- released in the meantime is skipped: neither marked nor booked)
+    match (List.range w.queues.length).find? (fun i =>
+        let add := sumRes ((w.allocs.filter (fun a => e.marked.contains a.key && inSubtree w i a.q)).map (·.res))
+        !resEq (prune (addX (preemptingOf w i) add)) (prune (e.preemptingAfter.getD i []))) with
+    | some i => invs := invs ++ [s!"C08.Q3-preempting-equals-marked {pathOf w i} preempting before={showRes (preemptingOf w i)} after={showRes (e.preemptingAfter.getD i [])} marked in this operation={e.marked} released-after-filtering={lateDone}"]
+    | none => pure ()
+    for k in lateDone do
+      if e.marked.contains k then invs := invs ++ [s!"C07.Q3-released {k} (released after the filtering, marked nevertheless)"]
     let victims := e.marked.filterMap (findAlloc w)
     -- every share of the plan only lists types of the leaf's preemptable usage (first pass of getChildQueuesPreemptableResource)
     for (lpath, lp) in plan do
